@@ -527,3 +527,6 @@ func c09GenBatch(t *rapid.T) c09BatchCase {
 }
 
 func TestC09Batch(t *testing.T) { h.Run(t, c09GenBatch, c09CheckBatch) }
+
+// Native coverage-guided fuzzing of the same generator and oracle (thorough tier).
+func FuzzC09Batch(f *testing.F) { h.Fuzz(f, c09GenBatch, c09CheckBatch) }
